@@ -103,6 +103,9 @@ namespace pika::detail {
             PIKA_VERIF_POST("stop.casfail", this, expected, 1);
             old_state = expected;
 
+            // the failed exchange may have observed a completed stop request
+            if (stop_requested(old_state)) return false;
+
             for (std::size_t k = 0; is_locked(old_state); ++k)
             {
                 pika::execution::this_thread::detail::yield_k(
@@ -145,6 +148,18 @@ namespace pika::detail {
         {
             PIKA_VERIF_POST("stop.casfail", this, expected, 2);
             old_state = expected;
+
+            // the failed exchange may have observed a completed stop request
+            if (stop_requested(old_state))
+            {
+                cb->execute();
+
+                cb->callback_finished_executing_.store(true, std::memory_order_release);
+                PIKA_VERIF_POST("stop.infin", cb, 0, 0);
+
+                return false;
+            }
+            else if (!stop_possible(old_state)) { return false; }
 
             for (std::size_t k = 0; is_locked(old_state); ++k)
             {
